@@ -393,6 +393,7 @@ func cmdRun(args []string) int {
 	tier := fs.String("tier", "quick", "")
 	seed := fs.Int64("seed", 1, "")
 	bin := fs.String("bin", os.Args[0], "worker binary")
+	plainbin := fs.String("plainbin", "", "worker binary for the kinds that run a single goroutine (used with a -race build: only the concurrent kinds need the instrumented binary)")
 	workers := fs.Int("workers", 0, "")
 	covdir := fs.String("covdir", "", "GOCOVERDIR for workers (thorough)")
 	fs.Parse(args)
@@ -526,7 +527,11 @@ func cmdRun(args []string) int {
 				mu.Lock()
 				kindBudgets[sh.Kind] = caseCPU
 				mu.Unlock()
-				cmd := exec.Command(*bin, "worker", "-prop", id, "-tier", *tier,
+				wbin := *bin
+				if *plainbin != "" && !strings.HasPrefix(sh.Kind, "conc") {
+					wbin = *plainbin
+				}
+				cmd := exec.Command(wbin, "worker", "-prop", id, "-tier", *tier,
 					"-seed", strconv.FormatInt(*seed, 10), "-kind", sh.Kind,
 					"-lo", strconv.FormatInt(lo, 10), "-hi", strconv.FormatInt(sh.Hi, 10),
 					"-out", outf, "-journal", jf, "-replaydir", work,
@@ -535,7 +540,7 @@ func cmdRun(args []string) int {
 				ef, _ := os.Create(errf)
 				cmd.Stderr = ef
 				cmd.Stdout = ef
-				cmd.Env = append(os.Environ(), "GOMAXPROCS="+gomaxprocs(id), "GOTRACEBACK=all")
+				cmd.Env = append(os.Environ(), "GOMAXPROCS="+gomaxprocs(id, sh.Kind), "GOTRACEBACK=all")
 				if *covdir != "" {
 					cmd.Env = append(cmd.Env, "GOCOVERDIR="+*covdir)
 				}
@@ -763,8 +768,8 @@ func cmdRun(args []string) int {
 	return 0
 }
 
-func gomaxprocs(id string) string {
-	if id == "C13" {
+func gomaxprocs(id, kind string) string {
+	if id == "C13" || kind == "overlap" {
 		return "8"
 	}
 	return "1"
